@@ -102,6 +102,11 @@ def main():
         task = json.load(f)
     faulthandler.dump_traceback_later(task.get('hang_s', 900), exit=True)
     t0 = time.time()
+    if task.get('run_timeout'):
+        # a run stops exploring (it is not killed) well before the driver's
+        # wall-clock limit for one task, whatever the check's own deadline
+        soft = t0 + 0.7 * task['run_timeout']
+        task['deadline'] = min(task.get('deadline') or soft, soft)
     try:
         from sim import props
         prop = props.get(task['property'])
